@@ -74,7 +74,7 @@ def _gc(keep):
                 shutil.rmtree(d, ignore_errors=True)
 
 
-def ensure_build(flavour="asan", quiet=False):
+def ensure_build(flavour="asan", quiet=False, targets=None):
     """returns the build directory holding the repo's objects built from the current tree"""
     os.makedirs(BUILD_ROOT, exist_ok=True)
     th = tree_hash()
@@ -97,7 +97,8 @@ def ensure_build(flavour="asan", quiet=False):
               "-DCMAKE_BUILD_TYPE=Debug",
               "-DCMAKE_C_FLAGS=" + fl["cflags"], "-DCMAKE_CXX_FLAGS=" + fl["cflags"],
               "-DCMAKE_EXE_LINKER_FLAGS=" + fl["ldflags"]], log=log)
-        _run(["cmake", "--build", bdir, "-j", "16"],
+        tg = (["--target"] + list(targets)) if targets else []
+        _run(["cmake", "--build", bdir, "-j", "16"] + tg,
              env={"ASAN_OPTIONS": "detect_leaks=0", "TSAN_OPTIONS": "report_bugs=0"}, log=log)
         open(stamp, "w").write(th)
         _gc(bdir)
@@ -132,7 +133,8 @@ def include_flags(bdir):
 
 def ensure_harness(name, sources, flavour="asan", wraps=None, stem=True, extra=None):
     """compile+link /verif/harness/<sources> against the repo objects of this tree; returns exe path"""
-    bdir = ensure_build(flavour, quiet=True)
+    # the tsan flavour is only used by the library-level harness: build just those libraries
+    bdir = ensure_build(flavour, quiet=True, targets=(["async", "port", "logger"] if flavour == "tsan" else None))
     exe = os.path.join(bdir, name)
     srcs = [os.path.join(VERIF, "harness", s) for s in sources]
     hdrs = glob.glob(os.path.join(VERIF, "harness", "*.h")) + glob.glob(os.path.join(VERIF, "harness", "*.hpp"))
